@@ -101,6 +101,26 @@ func main() {
 			kv.WriteResult(*out, res)
 		}
 		fmt.Fprintf(stdout, "%s: cases=%d nontrivial=%d monitor=%v\n", os.Args[1], res.Evaluations, res.DistinctNontrivial, res.MonitorHitCount)
+	case "sig":
+		fs := flag.NewFlagSet("sig", flag.ExitOnError)
+		_ = fs.String("driver", "", "path to olpdriver")
+		seed := fs.Uint64("seed", 1, "seed")
+		hist := fs.Int("histories", 10, "histories")
+		blocks := fs.Int("blocks", 10, "blocks per history")
+		maxtx := fs.Int("maxtxs", 6, "max txs per block")
+		out := fs.String("out", "", "result json")
+		fs.Parse(os.Args[2:])
+		stdout := apph.SilenceAppLogs()
+		res, err := apph.RunSig(*seed, *hist, *blocks, *maxtx)
+		apph.Cleanup()
+		if err != nil {
+			fmt.Fprintln(stdout, "olh sig:", err)
+			os.Exit(2)
+		}
+		if *out != "" {
+			kv.WriteResult(*out, res)
+		}
+		fmt.Fprintf(stdout, "sig: cases=%d nontrivial=%d monitor=%v\n", res.Evaluations, res.DistinctNontrivial, res.MonitorHitCount)
 	case "shell":
 		fs := flag.NewFlagSet("shell", flag.ExitOnError)
 		driver := fs.String("driver", "", "path to olpdriver")
